@@ -676,6 +676,32 @@ func c17RaceCases(out *verifkit.Out, r *verifkit.Rand, n int) {
 					results[k] = c17RunGetSCTs(scs[k], groups, start)
 				}(k)
 			}
+			if callers > 1 {
+				// weight changes racing with the callers' GetSubmissionSession (positive weights stay positive, so the
+				// set of session candidates does not change)
+				wg.Add(1)
+				go func() {
+					defer wg.Done()
+					for round := 0; round < 3; round++ {
+						for _, g := range groups {
+							all := map[string]float32{}
+							for u, w := range g.LogWeights {
+								if w > 0 {
+									all[u] = c17Dyadic[1+(round+len(u))%(len(c17Dyadic)-1)]
+								}
+							}
+							if round%2 == 0 {
+								for u, w := range all {
+									_ = g.SetLogWeight(u, w)
+								}
+							} else if len(all) == len(g.LogWeights) {
+								_ = g.SetLogWeights(all)
+							}
+						}
+						time.Sleep(500 * time.Millisecond)
+					}
+				}()
+			}
 			wg.Wait()
 		})
 		for k := range scs {
